@@ -56,7 +56,9 @@ def mk(prefix, L, op, extra, sfx, checks='func', leak=False, timeout=600, safety
                 desc='static hash table %s on layout %s (M=%d, %d keys, %d used)%s: key bytes/lengths, value bytes, block fills, raw hash symbolic' % (op, L['id'], M, L['nkeys'], L['used'], sfx))
 
 
-def vsizes(M, tier):
+def vsizes(M, tier, few=False):
+    if few:
+        return [1, D + 1, D + E + 1] if M <= 2 else [1, D + 1]
     base = [1, D, D + 1]
     if tier == 'thorough' or M <= 2:
         base += [D + E, D + E + 1]
@@ -65,7 +67,7 @@ def vsizes(M, tier):
     return base
 
 
-def step_cases(tier, prefix='c06', ops=('PUT', 'GET', 'REMOVE', 'REMOVE_IDX', 'WALK', 'CLEAR', 'SIZE'), Ms=None, filt=None, **kw):
+def step_cases(tier, prefix='c06', ops=('PUT', 'GET', 'REMOVE', 'REMOVE_IDX', 'WALK', 'CLEAR', 'SIZE'), Ms=None, filt=None, few=False, **kw):
     q = tier == 'quick'
     Ms = Ms or ([2] if q else [2, 3])
     out = []
@@ -80,7 +82,7 @@ def step_cases(tier, prefix='c06', ops=('PUT', 'GET', 'REMOVE', 'REMOVE_IDX', 'W
                         kcs = [-1] + [i for i, h in enumerate(homes) if h == H]
                         for kc in kcs:
                             if op == 'PUT':
-                                for vs in vsizes(M, tier):
+                                for vs in vsizes(M, tier, few):
                                     out.append(mk(prefix, L, op, {'VF_OPHOME': H, 'VF_KCLASS': kc, 'VF_VSZ': vs}, '.h%d.k%s.v%d' % (H, 'new' if kc < 0 else kc, vs), **kw))
                             elif op == 'GET' and kc >= 0:
                                 # get() allocates the value size and copies from the matching slot: key lengths, the final-block fill of that key
@@ -133,11 +135,11 @@ def cases(tier, mode='func'):
     if mode == 'func':
         return step_cases(tier)
     if mode == 'c07':
-        return step_cases(tier, prefix='c07', checks='safety', ops=('PUT', 'REMOVE', 'REMOVE_IDX', 'GET', 'CLEAR'), Ms=[2] if q else [2, 3]) + ctor_cases(tier)
+        return step_cases(tier, prefix='c07', checks='safety', ops=('PUT', 'REMOVE', 'REMOVE_IDX', 'GET', 'CLEAR'), Ms=[2] if q else [2, 3], few=q) + ctor_cases(tier)
     if mode == 'safety':
-        return step_cases(tier, prefix='c11', checks='safety', leak=True, Ms=[2] if q else [2, 3], safety_owner='C11')
+        return step_cases(tier, prefix='c11', checks='safety', leak=True, Ms=[2], safety_owner='C11', few=True, filt=(lambda L: L['nkeys'] <= 1) if q else None, ops=('PUT', 'REMOVE', 'WALK', 'GET') if q else ('PUT', 'GET', 'REMOVE', 'REMOVE_IDX', 'WALK', 'CLEAR'))
     if mode == 'copy':
-        return step_cases(tier, prefix='c12', checks='safety', ops=('PUT', 'GET', 'WALK'), Ms=[2] if q else [2, 3], safety_owner='C11')
+        return step_cases(tier, prefix='c12', checks='safety', ops=('PUT', 'GET', 'WALK'), Ms=[2], safety_owner='C11', few=True, filt=(lambda L: L['nkeys'] <= 1) if q else None)
     if mode in ('lock', 'allocfail'):
         return []
     raise ValueError(mode)
